@@ -34,6 +34,10 @@ use multiaddr::Multiaddr;
 use std::fmt::Debug;
 
 pub(crate) use connection::Permit;
+#[cfg(litep2p_verif)]
+pub(crate) mod verif_tcploop_handle {
+    pub(crate) use super::connection::ConnectionHandle;
+}
 pub(crate) use protocol_set::{InnerTransportEvent, ProtocolCommand, ProtocolSet};
 
 pub use transport_service::{SubstreamKeepAlive, TransportService};
